@@ -16,7 +16,7 @@ QUANTS = ['Existential', 'Universal']
 SYS = ['Identity', 'Existence']
 
 HEADER = ('From Coq Require Import List Bool Arith NArith String.\n'
-          'From PT Require Import Lang.PSyntax Lang.ParsePolish Lang.PShow.\n'
+          'From PT Require Import Lang.PSyntax Lang.ParsePolish Lang.ParsePolishProofs Lang.PShow.\n'
           'Import ListNotations.\nOpen Scope string_scope.\nOpen Scope list_scope.\n')
 
 
